@@ -49,6 +49,18 @@ def _dump(line):
     return out
 
 
+def _during(op, out, dump_before):
+    """(node, amount) credited by another request while this withdrawal's settlement was in flight, if the settlement
+    handler was reached and the node is registered; else None"""
+    d = _kv(op).get("during")
+    if not d or not (out.startswith("ok") or out.startswith("err SettleFailed")):
+        return None
+    node, amt = d.split(":", 1)
+    if dump_before is None or node not in dump_before["nb"]:
+        return None
+    return node, int(amt)
+
+
 def c01_ledger(stream, res, impl):
     """zero-sum: between two dumps the total credit changes only by what a successful withdrawal settled"""
     if stream["component"] != "pool":
@@ -75,6 +87,12 @@ def c01_ledger(stream, res, impl):
                 wd = [(o, r) for o, r in between if o.split()[1] == "withdraw" and r.startswith("ok")]
                 # `addnb` is the harness writing credit straight into the store (test set-up), not a pool operation
                 injected = sum(int(o.split()[3]) for o, r in between if o.split()[1] == "addnb" and r.startswith("ok"))
+                # ... and `during=` is another request's credit arriving while a settlement is in flight
+                for o, r in between:
+                    if o.split()[1] == "withdraw":
+                        du = _during(o, r, prev)
+                        if du:
+                            injected += du[1]
                 if not wd:
                     if d["total_credit"] != prev["total_credit"] + injected:
                         return "ledger total changed from %d to %d without a successful withdrawal (ops: %s)" % (
@@ -82,7 +100,7 @@ def c01_ledger(stream, res, impl):
                 elif len(between) == 1:
                     w = between[0][0].split()[2]
                     settled = prev["ab"].get(w, ("~", 0))[1]
-                    if d["total_credit"] != prev["total_credit"] - settled:
+                    if d["total_credit"] != prev["total_credit"] - settled + injected:
                         return "withdrawal of %s changed the ledger total by %d, settled credit was %d" % (
                             w, prev["total_credit"] - d["total_credit"], settled)
             prev, between = d, []
@@ -162,11 +180,15 @@ def c07_withdraw(stream, res, impl):
                 owed1 = d["dep"].get(w, 0) + d["ab"].get(w, ("~", 0))[1]
                 paid = d["paid"].get(w, 0) - prev["paid"].get(w, 0)
                 fee = 0 if cfg.get("wfee", "off") == "off" else int(cfg["wfee"])
+                # what a node of this wallet earned while the settlement was in flight is owed afterwards
+                du = _during(o, r, prev)
+                meanwhile = du[1] if (du and prev["nb"][du[0]][0] == w) else 0
+                owed0 += 0 if r.startswith("ok") else meanwhile
                 if r.startswith("ok"):
                     if paid != owed0 - fee:
                         return "withdrawal of %s paid %d, owed %d fee %d" % (w, paid, owed0, fee)
-                    if owed1 != 0:
-                        return "withdrawal of %s left %d still owed" % (w, owed1)
+                    if owed1 != meanwhile:
+                        return "withdrawal of %s left %d still owed (%d earned while it was being settled)" % (w, owed1, meanwhile)
                     if cfg.get("wmin", "off") != "off" and owed0 < int(cfg["wmin"]):
                         return "withdrawal of %s executed below the minimum (%d < %s)" % (w, owed0, cfg["wmin"])
                 else:
@@ -419,6 +441,27 @@ def _registry_sim(res, impl):
 
 def c09_registry(stream, res, impl):
     """NumRemotes = hosts with a live registration; whitelist/disconnect calls only go to such connections"""
+    if stream["component"] == "poolbin":
+        reg = {}
+        for op, out in zip(res, impl):
+            t = op.split()
+            if len(t) < 2:
+                continue
+            if t[0] == "case":
+                reg = {}
+            elif t[1] == "hostconn" and out == "ok":
+                reg[t[3]] = t[2]
+            elif t[1] == "closeconn":
+                for h in [h for h, c in reg.items() if c == t[2]]:
+                    del reg[h]
+            elif t[1] == "peer":
+                kv = _kv(out)
+                wl = sorted(x for x in kv.get("wl", "").split(",") if x)
+                hosts = sorted(x for x in kv.get("hosts", "").split(",") if x)
+                if wl != sorted(reg.values()) or hosts != sorted(reg) or out.startswith("err RemoteHostErrors"):
+                    return ("hosts with a live connection: %s; the pool called connections %s and answered the client `%s`"
+                            % (sorted(reg.items()), wl, out[:160]))
+        return None
     if stream["component"] != "pool":
         return None
     for t, out, reg in _registry_sim(res, impl):
@@ -473,6 +516,12 @@ def c05_nonce(stream, res, impl):
             continue
         if t[0] == "case":
             last = {}
+            continue
+        if comp == "conc" and t[1] == "nonces":
+            kv = _kv(out)
+            if kv.get("rounds-with-duplicates", "0") != "0":
+                return ("the same (identity, nonce) was accepted more than once by concurrent submissions in %s round(s): %s -> %s"
+                        % (kv["rounds-with-duplicates"], op[:120], out))
             continue
         if comp == "noncettl" and t[1] == "run":
             evs = [x for x in t if x.startswith("ev=")]
@@ -552,6 +601,10 @@ def c04_altered_refused(stream, res, impl):
         now = int(now[2:]) if now.startswith("t:") else None
         if refused:
             fresh = now is not None and nonce > now - NONCE_WINDOW_NS + 10**9
+            if fresh and nonce > honoured.get(ident, 0) and (ident not in burned or nonce > burned[ident]) \
+                    and t[1] not in ("addnode", "withdraw"):
+                return ("correctly signed request of %s with a fresh nonce %d above every nonce seen for it (last honoured %d) was refused: %s -> %s"
+                        % (ident, nonce, honoured.get(ident, 0), op[:200], out[:80]))
             if fresh and nonce > honoured.get(ident, 0) and ident in burned and nonce <= burned[ident]:
                 return ("correctly signed request of %s with fresh nonce %d (last honoured %d) refused after a refused forgery with nonce %d: "
                         "the forgery consumed the nonce: %s" % (ident, nonce, honoured.get(ident, 0), burned[ident], op[:200]))
@@ -788,3 +841,8 @@ def c20_life(stream, res, impl):
             if len(t) > 2 and t[2] == "fail":
                 loops = 0
     return None
+
+
+def c10_conc(stream, res, impl):
+    """concurrent workloads: nonce decisions and withdrawals must be those of some serial order"""
+    return c05_nonce(stream, res, impl) or c07_withdraw(stream, res, impl)
